@@ -265,6 +265,9 @@ DoneOK ==
     (phase = "done" /\ ~res.err) =>
        /\ res.depth <= cfg.maxd + cfg.extra
        /\ cfg.extra = 0 => res.depth <= cfg.maxd
+       \* "depth <= maxdepth" is about the *configured* maxdepth: the per-trajectory bound derived from
+       \* target_integration_time may be smaller, never larger
+       /\ cfg.extra = 0 => res.depth <= cfg.cfgMaxd
        /\ Pow2(res.depth) - 1 <= nleap
        \* (a rejected extension before an extra doubling adds leapfrogs that no
        \* depth accounts for; the bound is stated for extra_doublings = 0)
